@@ -17,7 +17,8 @@ type c17Case struct {
 	Filter string `json:"filter"`
 	Input  []byte `json:"input"`
 	Param  string `json:"param,omitempty"`
-	Shown  string `json:"shown,omitempty"` // quoted input, for readers of samples
+	Shown  string `json:"shown,omitempty"`   // quoted input, for readers of samples
+	SafeIn bool   `json:"safe_in,omitempty"` // the input value carries the "safe" flag (Go code marked it)
 }
 
 var c17Filters = []string{"escape", "e", "escapejs", "urlencode", "iriencode", "addslashes", "striptags", "removetags", "safe"}
@@ -301,7 +302,14 @@ func checkC17(c any, r *Rec) error {
 	if f == "removetags" {
 		param = pongo2.AsValue(cs.Param)
 	}
-	v, ferr := pongo2.ApplyFilter(f, pongo2.AsValue(in), param)
+	inVal := pongo2.AsValue(in)
+	var ctxV any = in
+	if cs.SafeIn {
+		// what a filter promises does not depend on who flagged its input
+		inVal = pongo2.AsSafeValue(in)
+		ctxV = inVal
+	}
+	v, ferr := pongo2.ApplyFilter(f, inVal, param)
 	// the same through template syntax (autoescape off so we see the filter's own output)
 	src := "{% autoescape off %}{{ v|" + f
 	if f == "removetags" {
@@ -312,7 +320,7 @@ func checkC17(c any, r *Rec) error {
 	if cerr != nil {
 		return fmt.Errorf("template %q does not compile: %v", src, cerr)
 	}
-	tout, terr := tpl.Execute(pongo2.Context{"v": in, "p": cs.Param})
+	tout, terr := tpl.Execute(pongo2.Context{"v": ctxV, "p": cs.Param})
 	if (ferr == nil) != (terr == nil) {
 		return fmt.Errorf("%s on %q: ApplyFilter err=%v but template err=%v", f, in, ferr, terr)
 	}
@@ -400,7 +408,7 @@ func checkC17(c any, r *Rec) error {
 		if err != nil {
 			return err
 		}
-		o2, err := t2.Execute(pongo2.Context{"v": in})
+		o2, err := t2.Execute(pongo2.Context{"v": ctxV})
 		if err != nil || o2 != in {
 			return fmt.Errorf("{{ v|safe }} with v=%q rendered %q err=%v", in, o2, err)
 		}
@@ -429,7 +437,7 @@ var _ = register(&propSpec{
 	Rule: "one of the 9 escaping filters applied (through ApplyFilter and through {{ v|f }}, which must agree) to strings mixing specials, entities, backslash sequences, tags, multi-byte/astral runes, control chars and invalid UTF-8; oracle per filter in both directions (forbidden characters absent AND an independent decoder/reference returns the input). Non-trivial: input contains a character of the filter's special set or invalid UTF-8; distinct by (filter, param, input).",
 	Gen: func(t *rapid.T) any {
 		f := pick(t, "filter", c17Filters)
-		cs := &c17Case{Filter: f, Input: genC17Input(t)}
+		cs := &c17Case{Filter: f, Input: genC17Input(t), SafeIn: drawInt(t, 0, 4, "safein") == 0}
 		if f == "removetags" {
 			cs.Param = genC17Param(t)
 		}
@@ -448,12 +456,17 @@ func TestC17Enum(t *testing.T) {
 	enumerate(t, "C17.filter", "enum", func(yield func(any) bool) {
 		emit := func(s string) bool {
 			for _, f := range c17Filters {
-				cs := &c17Case{Filter: f, Input: []byte(s), Shown: quoteShort(s)}
-				if f == "removetags" {
-					cs.Param = "a,b"
-				}
-				if !yield(cs) {
-					return false
+				for _, safeIn := range []bool{false, true} {
+					if safeIn && len(s) > 3 {
+						continue
+					}
+					cs := &c17Case{Filter: f, Input: []byte(s), Shown: quoteShort(s), SafeIn: safeIn}
+					if f == "removetags" {
+						cs.Param = "a,b"
+					}
+					if !yield(cs) {
+						return false
+					}
 				}
 			}
 			return true
